@@ -102,6 +102,15 @@ class TracingLock:
 
     def acquire(self, blocking=True, timeout=-1):
         me = threading.get_ident()
+        if self.owner == me and self.depth >= (1 if self.sched.name().startswith("r") else 2):
+            # a snapshot operation may nest acquisitions of the re-entrant lock (e.g. TypedTree.save -> Tree.save):
+            # the protocol steps are a reader's OUTERMOST acquire / release and, for the owner's nested snapshot
+            # operation, its first (second-level) one
+            if not self.inner.acquire(False):
+                self.sched.rec.log(self.sched.name(), "not_reentrant")
+                raise _Abort()
+            self.depth += 1
+            return True
         self.sched.step("try")
         if self.sched.schedule is not None:
             # cooperative: the acquisition itself happens at the specification's Acquire step
@@ -128,6 +137,10 @@ class TracingLock:
         return True
 
     def release(self):
+        if self.depth > (1 if self.sched.name().startswith("r") else 2):
+            self.depth -= 1
+            self.inner.release()
+            return
         self.sched.step("rel")  # logged before the lock is given up
         self.depth -= 1
         if self.depth == 0:
@@ -195,7 +208,7 @@ def run_reader_op(tree, op, sched: Scheduler, tmpdir):
         t2 = tree.filtered(pred)
         return markers([n.name for n in t2]), calls["n"]
     if op == "copy_to":
-        t2 = Tree("target")
+        t2 = type(tree)("target")
         tree.copy_to(t2)
         return markers([n.name for n in t2]), 0
     if op == "to_dict_list":
@@ -216,7 +229,13 @@ def run_reader_op(tree, op, sched: Scheduler, tmpdir):
     raise ValueError(op)
 
 
-def build_tree():
+def build_tree(typed=False):
+    if typed:
+        from nutree.typed_tree import TypedTree
+        tree = TypedTree("locked")
+        for n in BASE:
+            tree.add(n, kind="base", data_id="id_" + n)
+        return tree
     tree = Tree("locked")
     for n in BASE:
         tree.add(n, data_id="id_" + n)  # explicit ids: save() stores dict entries, so its mapper sees every node
@@ -224,9 +243,9 @@ def build_tree():
 
 
 def run_trace(op, *, schedule=None, nested=True, nested_op="to_dict_list", writers=("w1",), readers=("r1",), tmpdir="/tmp",
-              trace_id=0, reader_ops=None):
+              trace_id=0, reader_ops=None, typed=False):
     """One execution with real threads.  Returns the trace record for TraceLock."""
-    tree = build_tree()
+    tree = build_tree(typed)
     rec = Recorder()
     silent = set()
     rops = reader_ops or {r: op for r in readers}
@@ -246,7 +265,10 @@ def run_trace(op, *, schedule=None, nested=True, nested_op="to_dict_list", write
             with tree:
                 sched.step("mut", version["v"] + 1)
                 version["v"] += 1
-                tree.add(f"w{k}a", data_id=f"id_w{k}a")
+                if typed:   # every mutation introduces a new kind (the kind list is part of a typed snapshot)
+                    tree.add(f"w{k}a", kind=f"ka{k}", data_id=f"id_w{k}a")
+                else:
+                    tree.add(f"w{k}a", data_id=f"id_w{k}a")
                 if nested:
                     # the owner calls a snapshot operation inside its critical section (re-entrant acquire)
                     if nested_op == "with":
@@ -257,7 +279,10 @@ def run_trace(op, *, schedule=None, nested=True, nested_op="to_dict_list", write
                     rec.log(name, "nsnap", shows)
                 sched.step("mut", version["v"] + 1)
                 version["v"] += 1
-                tree.add(f"w{k}b", data_id=f"id_w{k}b")
+                if typed:
+                    tree.add(f"w{k}b", kind=f"kb{k}", data_id=f"id_w{k}b")
+                else:
+                    tree.add(f"w{k}b", data_id=f"id_w{k}b")
         except _Abort:
             pass
         except MachineryTimeout as e:
@@ -293,7 +318,7 @@ def run_trace(op, *, schedule=None, nested=True, nested_op="to_dict_list", write
             raise MachineryTimeout(f"thread did not finish (op={op}, schedule={schedule})")
     if errors:
         raise errors[0]
-    return {"id": trace_id, "op": "+".join(sorted(set(rops.values()))) + ("/nested:" + nested_op if nested else ""),
+    return {"id": trace_id, "op": ("typed:" if typed else "") + "+".join(sorted(set(rops.values()))) + ("/nested:" + nested_op if nested else ""),
             "events": rec.events, "forced": schedule is not None}
 
 
@@ -308,7 +333,7 @@ def _owner_snapshot(tree, op, tmpdir):
         tree.save(fp, key_map=False)
         return markers([_entry_name(e[1]) for e in json.loads(fp.getvalue())["nodes"]]), 0
     if op == "copy_to":
-        t2 = Tree("t")
+        t2 = type(tree)("t")
         tree.copy_to(t2)
         return markers([n.name for n in t2]), 0
     if op == "to_dotfile":
